@@ -99,7 +99,15 @@ func (a *Adversary) ForgedIdentity(kind string, victim *idp.Identity) (*idp.Iden
 	case "foreign-type":
 		// like copied-id, but the identity says it is of a type the provider knows nothing about
 		pub := uncompressedPub(priv)
-		return &idp.Identity{ID: victim.ID, PublicKey: pub, Signatures: a.Own.Signatures, Type: "forged", Provider: a.Own.Provider}, priv
+		// (half of the time a name that differs from the real one in the case of its letters)
+		typ := "forged"
+		if a.K.C.Chance(1, 2) {
+			typ = strings.ToUpper(victim.Type[:1]) + victim.Type[1:]
+			if len(victim.Type) > 5 {
+				typ = typ[:5] + strings.ToUpper(typ[5:6]) + typ[6:]
+			}
+		}
+		return &idp.Identity{ID: victim.ID, PublicKey: pub, Signatures: a.Own.Signatures, Type: typ, Provider: a.Own.Provider}, priv
 	case "copied-block", "block-and-key":
 		return &idp.Identity{ID: victim.ID, PublicKey: victim.PublicKey, Signatures: victim.Signatures, Type: victim.Type, Provider: a.Own.Provider}, priv
 	}
